@@ -235,3 +235,15 @@ package period
 //@ use isoOfThursday(y, T + 3)
 //@ ensures 0 <= T && T <= 3652424
 //@ ensures klog.isoweek(T) == w && klog.isoyear(T) == y && wk(T) == 0
+
+// NewPeriodFromPatternString: the four shapes are disjoint, so at most one constructor accepts; the result is that
+// constructor's period, and a string that none accepts is rejected.
+//@ spec okY(p string) bool = matches(yearPattern, p)
+//@ spec okM(p string) bool = matches(monthPattern, p) && 1 <= num(p[5:7]) && num(p[5:7]) <= 12
+//@ spec okQ(p string) bool = matches(quarterPattern, p) && 1 <= num(p[6:7]) && num(p[6:7]) <= 4
+//@ spec okW(p string) bool = matches(weekPattern, p) && 1 <= num(p[6:len(p)]) && num(p[6:len(p)]) <= klog.isoweek(dn(num(p[0:4]), 12, 28))
+//@ func NewPeriodFromPatternString
+//@ ensures (result1 == nil) == (okY(pattern) || okM(pattern) || okQ(pattern) || okW(pattern))
+//@ ensures implies(okY(pattern), typeis(result0, *periodData) && klog.ddn(result0.(*periodData).since) == dn(num(pattern), 1, 1) && klog.ddn(result0.(*periodData).until) == dn(num(pattern), 12, 31))
+//@ ensures implies(okM(pattern), typeis(result0, *periodData) && klog.ddn(result0.(*periodData).since) == dn(num(pattern[0:4]), num(pattern[5:7]), 1) && klog.ddn(result0.(*periodData).until) == dn(num(pattern[0:4]), num(pattern[5:7]), dim(num(pattern[0:4]), num(pattern[5:7]))))
+//@ loop 1 invariant implies(rangeindex >= 0, !okY(pattern)) && implies(rangeindex >= 1, !okM(pattern)) && implies(rangeindex >= 2, !okQ(pattern)) && implies(rangeindex >= 3, !okW(pattern))
